@@ -238,6 +238,86 @@ func markersIn(s string) term {
 	return L(out...)
 }
 
+// the promise object of an HTTP reply body, wherever the operation puts it
+func findPromiseJSON(op string, parsed any) map[string]any {
+	m, ok := parsed.(map[string]any)
+	if !ok {
+		return nil
+	}
+	switch op {
+	case "ReadPromise", "CreatePromise", "ResolvePromise", "RejectPromise", "CancelPromise":
+		return m
+	case "CreatePromiseAndTask", "CreateCallback", "CreateSubscription":
+		if pm, ok := m["promise"].(map[string]any); ok {
+			return pm
+		}
+	case "SearchPromises":
+		if l, ok := m["promises"].([]any); ok && len(l) == 1 {
+			if pm, ok := l[0].(map[string]any); ok {
+				return pm
+			}
+		}
+	}
+	return nil
+}
+
+var stateNames = map[promise.State]string{promise.Pending: "PENDING", promise.Resolved: "RESOLVED", promise.Rejected: "REJECTED",
+	promise.Canceled: "REJECTED_CANCELED", promise.Timedout: "REJECTED_TIMEDOUT"}
+
+// the fully populated stub promise (shape 0), field by field, under the names of the HTTP API
+func promiseJSONExact(m map[string]any, st promise.State) bool {
+	val := func(v any) bool {
+		x, ok := v.(map[string]any)
+		if !ok {
+			return false
+		}
+		h, ok := x["headers"].(map[string]any)
+		return ok && len(h) == 1 && h["h"] == "v" && x["data"] == "ZA==" // base64("d")
+	}
+	tags, ok := m["tags"].(map[string]any)
+	return ok && len(tags) == 1 && tags["t"] == "v" && m["id"] == "PRM" && m["state"] == stateNames[st] && m["timeout"] == float64(10) &&
+		val(m["param"]) && val(m["value"]) && m["idempotencyKeyForCreate"] == "IKEY" && m["idempotencyKeyForComplete"] == "IKEY" &&
+		m["createdOn"] == float64(1) && m["completedOn"] == float64(1) && len(m) == 10
+}
+
+func findPromisePB(reply any) *pb.Promise {
+	switch r := reply.(type) {
+	case *pb.ReadPromiseResponse:
+		return r.GetPromise()
+	case *pb.CreatePromiseResponse:
+		return r.GetPromise()
+	case *pb.CreatePromiseAndTaskResponse:
+		return r.GetPromise()
+	case *pb.ResolvePromiseResponse:
+		return r.GetPromise()
+	case *pb.RejectPromiseResponse:
+		return r.GetPromise()
+	case *pb.CancelPromiseResponse:
+		return r.GetPromise()
+	case *pb.CreateCallbackResponse:
+		return r.GetPromise()
+	case *pb.CreateSubscriptionResponse:
+		return r.GetPromise()
+	case *pb.SearchPromisesResponse:
+		if len(r.GetPromises()) == 1 {
+			return r.GetPromises()[0]
+		}
+	}
+	return nil
+}
+
+var pbStates = map[promise.State]pb.State{promise.Pending: pb.State_PENDING, promise.Resolved: pb.State_RESOLVED, promise.Rejected: pb.State_REJECTED,
+	promise.Canceled: pb.State_REJECTED_CANCELED, promise.Timedout: pb.State_REJECTED_TIMEDOUT}
+
+func promisePBExact(p *pb.Promise, st promise.State) bool {
+	val := func(v *pb.Value) bool {
+		return v != nil && len(v.Headers) == 1 && v.Headers["h"] == "v" && string(v.Data) == "d"
+	}
+	return p.Id == "PRM" && p.State == pbStates[st] && val(p.Param) && val(p.Value) && p.Timeout == 10 &&
+		p.IdempotencyKeyForCreate == "IKEY" && p.IdempotencyKeyForComplete == "IKEY" && p.CreatedOn == 1 && p.CompletedOn == 1 &&
+		len(p.Tags) == 1 && p.Tags["t"] == "v"
+}
+
 func isWord(c byte) bool { return c >= 'A' && c <= 'Z' || c >= '0' && c <= '9' }
 
 // boolean outcome flags of a gRPC reply message, by reflection over its exported bool fields
@@ -350,7 +430,11 @@ func cmdRender(args []string) {
 							}
 						}
 					}
-					hobs = C("HReply", int64(resp.StatusCode), jsonOK, ecode, markersIn(string(body)))
+					marks := markersIn(string(body))
+					if pm := findPromiseJSON(op, parsed); pm != nil && promiseJSONExact(pm, pstate) {
+						marks = L(append(marks.(map[string]any)["l"].([]term), S("EXACT"))...)
+					}
+					hobs = C("HReply", int64(resp.StatusCode), jsonOK, ecode, marks)
 					stats[fmt.Sprintf("http-%d", resp.StatusCode)]++
 				}
 				// ---- gRPC ----
@@ -383,7 +467,11 @@ func cmdRender(args []string) {
 						b, _ := protojson.Marshal(pm)
 						text = string(b)
 					}
-					gobs = C("GReply", int64(0), boolFlags(reply), markersIn(text))
+					gmarks := markersIn(text)
+					if pp := findPromisePB(reply); pp != nil && promisePBExact(pp, pstate) {
+						gmarks = L(append(gmarks.(map[string]any)["l"].([]term), S("EXACT"))...)
+					}
+					gobs = C("GReply", int64(0), boolFlags(reply), gmarks)
 					stats["grpc-ok"]++
 				}
 				cases = append(cases, C("CRender", S(op), int64(st), int64(shape), resume, hobs, gobs))
